@@ -2,8 +2,8 @@
    Only statements here; every proof is one [exact] of a lemma from Proofs/.
    V = a column's values (opaque), conv = the converter (any function; None = it raises). *)
 From Coq Require Import List.
-From PdV.Model Require Import Convert Normalize.
-From PdV Require Import ConvertProofs NormalizeProofs.
+From PdV.Model Require Import Convert Normalize ConvertStore.
+From PdV Require Import ConvertProofs NormalizeProofs ConvertStoreProofs.
 Import ListNotations.
 
 (* For every table, dispatcher form and converter: convert_units fails as a whole, or returns the
@@ -40,6 +40,29 @@ Theorem C06_failure_propagates :
 Proof. exact failure_propagates. Qed.
 Print Assumptions C06_failure_propagates.
 
+(* The call as the code performs it - a copy of the table becomes a new object and its columns are
+   converted IN PLACE one after the other - on a store of table objects: no object that existed before
+   the call is written to (the original included), and the caller receives a new object holding exactly
+   what the specification convert_units computes, or, when that fails, the error and no object: the
+   half-converted copy is never handed out.  For every store, dispatcher form and converter. *)
+Theorem C06_in_place_loop_refines :
+  forall (V : Type) (conv : str -> option str -> V -> option (V * str)) d (st : store V) self cols,
+    nth_error st self = Some cols ->
+    let '(st', r) := convert_units_store conv d st self in
+    (forall k, k < length st -> nth_error st' k = nth_error st k) /\
+    match convert_units conv d cols with
+    | inl res => r = inl (length st) /\ nth_error st' (length st) = Some res
+    | inr e => r = inr e
+    end.
+Proof. exact convert_units_store_refines. Qed.
+Print Assumptions C06_in_place_loop_refines.
+
+Theorem C06_original_untouched :
+  forall (V : Type) (conv : str -> option str -> V -> option (V * str)) d (st : store V) self cols,
+    nth_error st self = Some cols -> nth_error (fst (convert_units_store conv d st self)) self = Some cols.
+Proof. exact original_untouched. Qed.
+Print Assumptions C06_original_untouched.
+
 (* The bulk form (normalized_table_generator, pdtable/utils.py): the stream keeps its shape - block
    for block the delivered block is what norm_block makes of the input block: a non-table block
    itself, a table without a dispatcher itself, a dispatched table its convert_units result - and
@@ -75,4 +98,17 @@ Example C06_example :
                 (DDict [(a, Some mm)])
                 [ {| c_name := a; c_unit := m; c_vals := [1; 2] |}; {| c_name := b; c_unit := u_text; c_vals := [7; 8] |} ]
   = inl [ {| c_name := a; c_unit := mm; c_vals := [1000; 2000] |}; {| c_name := b; c_unit := u_text; c_vals := [7; 8] |} ].
+Proof. vm_compute. reflexivity. Qed.
+
+(* non-vacuity of the store theorem: two columns, the converter fails on the second: the caller gets
+   the error, the original is intact, and the half-converted copy (first column already in mm) sits in
+   the store unreferenced *)
+Example C06_store_example :
+  let m : str := [109%N] in let mm : str := [109%N; 109%N] in let s : str := [115%N] in
+  let conv (u : str) (t : option str) (v : nat) : option (nat * str) :=
+      if str_eqb u m then Some (v * 1000, mm) else None in
+  let orig := [ {| c_name := [97%N]; c_unit := m; c_vals := 2 |}; {| c_name := [98%N]; c_unit := s; c_vals := 5 |} ] in
+  convert_units_store conv (DList [Some mm; Some m]) [orig] 0
+  = ([orig; [ {| c_name := [97%N]; c_unit := mm; c_vals := 2000 |}; {| c_name := [98%N]; c_unit := s; c_vals := 5 |} ]],
+     inr EConverter).
 Proof. vm_compute. reflexivity. Qed.
